@@ -17,7 +17,10 @@ Spec      : spec/Containers.tla, actions PatchSum (NormalisedCounts /
             handed out by get_array sum to what sample_patch_sum reports.
 spec->code: every (scenario, operation) case printed by TLC with its exact
             rational result is executed on real containers built from the same
-            integers; value AND every jackknife row are compared (1e-9), and so
+            integers; value AND every jackknife row are compared (1e-9; where the
+            property's formula is 0/0 or x/0 - an empty bin, an empty
+            leave-one-out sample - the real value must be nan or +-inf, a finite
+            number there is a violation), and so
             are the raw counts / sums of weights of every container of the
             workspace after every step (an accessor or estimator that rescales
             the stored counts is noticed at once and in the following Sample /
@@ -104,7 +107,8 @@ def run(ctx) -> None:
                 "containers; evaluation = one executed operation, value and every jackknife row compared with the exact "
                 "rationals and the stored counts/weights of all containers compared with the model's integers; non-trivial = composed history or non-value outcome; distinct = (scenario, history)")
     ctx.assume("pair counts / weights are small integers, bin edges a fixed affine image of integers; float comparison at 1e-9 "
-               "relative; where the formula is undefined (0/0, x/0, negative radicand) only non-finiteness is observed")
+               "relative; where the formula is undefined (0/0, x/0, negative radicand) the real value must be non-finite (nan and "
+               "+-inf are not told apart; n(z) may be exactly 0 where only an autocorrelation term is undefined = possibly infinite)")
     ctx.assume("member combinations without a prescribed formula (rr without dr) may be rejected or evaluated (accepted both); "
                "with dr and rd but no rr both DD/DR-1 and DD/RD-1 are accepted")
 
@@ -282,6 +286,14 @@ def ref_check_sample(cf, corr) -> list[str]:
         if not any(_close(corr.samples[k], a) for a in ref_estimate(cf, k)):
             bad.append("samples")
             break
+    # where the formula is 0/0 or x/0 (every admissible estimator is non-finite there) the result must not be a number
+    if not bad:
+        def finite_where_undefined(got, refs):
+            undef = np.all([~np.isfinite(np.asarray(a, dtype=float)) for a in refs], axis=0)
+            return bool(np.any(np.isfinite(np.asarray(got, dtype=float))[undef]))
+        if finite_where_undefined(corr.data, alts) or any(finite_where_undefined(corr.samples[k], ref_estimate(cf, k))
+                                                          for k in range(cf.num_patches)):
+            bad.append("finite_where_formula_is_undefined")
     return bad
 
 
@@ -386,7 +398,11 @@ def end_to_end(ctx, world, rng, quick) -> None:
                     ctx.violation(f"C04|CorrFunc.sample|measured:{arg}|raises_{type(exc).__name__}", dict(trial=trial, error=repr(exc)))
                     continue
                 bad = ref_check_sample(cf, corr)
-                if bad:
+                if bad and bad[0].startswith("finite_where"):
+                    ctx.violation(f"C04|CorrFunc.sample|measured:undefined_bin|{bad[0]}",
+                                  dict(trial=trial, seed=seed, members=mem, real=[float(x) for x in corr.data],
+                                       real_samples=np.asarray(corr.samples, dtype=float).tolist()))
+                elif bad:
                     ctx.violation(f"C04|CorrFunc.sample|measured:{arg}|wrong_" + bad[0],
                                   dict(trial=trial, seed=seed, members=mem, real=[float(x) for x in corr.data],
                                        reference=[[float(x) for x in a] for a in ref_estimate(cf)]))
